@@ -40,6 +40,7 @@ class SDeque:
         self.arr, self.head, self.tail = arr, head, tail
 
     def pyvc_len(self, interp):
+        interp.ctx.ghost["LAST_LEN"] = self.tail - self.head
         return Sym(INT, self.tail - self.head)
 
 
@@ -101,6 +102,14 @@ def build():
             recv.head = recv.head + 1
             ctx.events.append(("popleft", t))
             return t
+        if name == "pop":
+            held(interp, "_jobs.pop")
+            if ctx.branch(recv.head == recv.tail, "jobs:empty"):
+                interp.raise_("IndexError")
+            recv.tail = recv.tail - 1
+            t = Sym(TRef, z3.Select(recv.arr, recv.tail))
+            ctx.events.append(("popleft", t))
+            return t
         raise Unsupported("deque." + name)
 
     orig_cm = p.container_method
@@ -159,14 +168,37 @@ def build():
         if v is None:
             return  # the internal priming yield
         ny = ops.as_int_term(g["NY"])
-        ctx.check("%s/yield.next-sequential-result" % interp.contract.qualname, to_term(v) == Run(ny),
-                  detail="the n-th value yielded is f(*a, **k) of the n-th task (ordered mode)") if g.get("ORDERED", True) else None
+        if g.get("ORDERED", True):
+            ctx.check("%s/yield.next-sequential-result" % interp.contract.qualname, to_term(v) == Run(ny),
+                      detail="the n-th value yielded is f(*a, **k) of the n-th task (ordered mode)")
+        else:
+            ctx.check("%s/yield.next-result-of-the-delivered-batch" % interp.contract.qualname, to_term(v) == Run(ny),
+                      detail="the values of a delivered batch are its tasks' results in item order, each once (unordered mode)")
         since = g.get("ITER_START", 0)
         ctx.check("%s/yield.prompt-no-blocking-call-before-a-ready-result" % interp.contract.qualname,
                   not any(e[0] == "sleep" for e in ctx.events[since:]), detail="no sleep between noticing that the head job is finished and yielding its results")
         g["NY"] = Sym(INT, ny + 1)
 
     p.on_yield = on_yield
+
+    # promptness, second half: the retrieval thread never goes to sleep while the result it has to deliver next is ready
+    def sleep(interp, args, kwargs):
+        ctx = interp.ctx
+        ctx.events.append(("sleep",))
+        ll = ctx.ghost.get("LAST_LEN")
+        if ll is None or not getattr(interp.contract, "generator", False):
+            return None
+        if ctx.ghost.get("ORDERED", True):
+            me = ctx.ghost["SELF"]
+            head = z3.Select(me.fields["_jobs"].arr, me.fields["_jobs"].head)
+            ok = z3.Or(ll == 0, ctx.ghost.get("STATUS:%s" % head) == "Pending")
+        else:
+            ok = ll == 0
+        ctx.check("%s/sleep.only-when-nothing-is-ready" % interp.contract.qualname, ok,
+                  detail="time.sleep in the retrieval loop only when no job is queued (or, ordered, the head job is still pending)")
+        return None
+
+    p.models["time.sleep"] = sleep
 
     def parallel(**over):
         f = dict(_lock=OpaqueOf("plock"), _aborting=BOOL, _exception=BOOL, _jobs=DequeKind(), _jobs_set=OpaqueOf("jobsset"), return_ordered=True, timeout=Opt(REAL),
@@ -221,6 +253,89 @@ def build():
     p.spec_funcs["popped"] = lambda interp: [e for e in interp.ctx.events if e[0] == "popleft"][-1][1]
     p.spec_funcs["lo_of"] = lambda interp, t: Sym(INT, T_LO(t.term))
     p.spec_funcs["hi_of"] = lambda interp, t: Sym(INT, T_HI(t.term))
+
+    # ---- unordered mode: Parallel._jobs holds finished trackers in completion order (appended by _register_outcome exactly
+    # once each, part 1); the retrieval thread pops the head.  Ghost: DELIVERED, the set of trackers whose results were
+    # handed to the consumer.  Invariant: the queued trackers are pairwise distinct and none is delivered yet; hence each
+    # batch is delivered exactly once, in queue (= completion) order.
+    class ArrK(Atom):
+        def __init__(self, name, srt):
+            self.name, self._sort = name, srt
+
+        def sort(self):
+            return self._sort
+
+    DSET = ArrK("TRefSet", z3.ArraySort(TRef.sort(), z3.BoolSort()))
+
+    def jfresh(d, delivered):
+        k, j = z3.Int("k!jf"), z3.Int("j!jf")
+        sel = lambda i: z3.Select(d.arr, i)
+        return z3.And(
+            d.head <= d.tail,
+            z3.ForAll([k], z3.Implies(z3.And(d.head <= k, k < d.tail), z3.And(z3.Not(z3.Select(delivered, sel(k))), T_LO(sel(k)) < T_HI(sel(k))))),
+            z3.ForAll([k, j], z3.Implies(z3.And(d.head <= j, j < k, k < d.tail), sel(j) != sel(k))),
+        )
+
+    p.spec_funcs["jobs_fresh"] = lambda interp, me: ops.mk_bool(jfresh(me.fields["_jobs"], interp.ctx.ghost["DELIVERED"].term))
+    p.spec_funcs["delivered"] = lambda interp, t: ops.mk_bool(z3.Select(interp.ctx.ghost["DELIVERED"].term, t.term))
+
+    def dq_method_u(interp, recv, name, args, kwargs):
+        ctx = interp.ctx
+        t = dq_method(interp, recv, name, args, kwargs)
+        if name in ("popleft", "pop") and "DELIVERED" in ctx.ghost:
+            ctx.check("%s/unordered.popped-batch-not-delivered-before" % interp.contract.qualname, z3.Not(z3.Select(ctx.ghost["DELIVERED"].term, t.term)),
+                      detail="each finished batch is delivered exactly once")
+            ctx.check("%s/unordered.pops-the-oldest-finished-batch" % interp.contract.qualname, name == "popleft",
+                      detail="results are delivered in completion order: the head of the completed-jobs queue")
+            ctx.ghost["DELIVERED"] = Sym(DSET, z3.Store(ctx.ghost["DELIVERED"].term, t.term, True))
+            ctx.ghost["NY"] = Sym(INT, T_LO(t.term))
+            ctx.ghost["STATUS:%s" % t.term] = ("Done", "Error")[ctx.choose(2, "finished-as")]
+        return t
+
+    def cm_u(interp, recv, name, args, kwargs, node):
+        if isinstance(recv, SDeque):
+            return dq_method_u(interp, recv, name, args, kwargs)
+        return orig_cm(interp, recv, name, args, kwargs, node)
+
+    p.container_method = cm_u
+
+    def jobsset_remove(interp, recv, args, kwargs):
+        held(interp, "_jobs_set.remove")
+        interp.ctx.events.append(("jobs_set.remove", args[0]))
+        return None
+
+    p.models["jobsset.remove"] = jobsset_remove
+    p.models["jobsset.__iter__"] = lambda interp, recv, args, kwargs: Opaque("jobsset_iter", None)
+    def jobsset_next(interp, it, args, kwargs):
+        if not args:
+            raise Unsupported("next() without default on the set of dispatched jobs")
+        return Opt(TRef).fresh(interp.ctx, "control_job")
+
+    p.models["jobsset_iter.__next__"] = jobsset_next
+    p.write_hooks[("TRef", "_completion_timeout_counter")] = lambda interp, obj, attr, v: interp.ctx.events.append(("reset-timeout-counter", obj))
+
+    GHU = dict(NY=INT, DELIVERED=DSET)
+
+    def setup_u(interp, env):
+        setup(interp, env)
+        interp.ctx.ghost["ORDERED"] = False
+
+    p.add(Contract(
+        PAR, "Parallel._retrieve", variant="unordered", props=["C16", "C01"], ghost=GHU, setup=setup_u, generator=True,
+        params=dict(self=parallel(return_ordered=False)),
+        requires=["jobs_fresh(self)", "lock_depth() == 0"],
+        ensures={"lock_released": "lock_depth() == 0", "queued_jobs_still_undelivered": "jobs_fresh(self)"},
+        exsures={"ValueError": {"the_tasks_own_exception": "same_exc(exc)"}},
+        loops={
+            1: Loop("while self._wait_retrieval()",
+                    invariant={"queued_jobs_undelivered_and_distinct": "jobs_fresh(self)", "lock_free": "lock_depth() == 0"},
+                    kinds={"batched_results": TRef, "timeout_control_job": Opt(TRef)},
+                    havoc=["ghost:NY"]),
+            2: Loop("for result in batched_results",
+                    invariant={"yields_in_item_order": "NY == lo_of(popped()) + _i", "rest_of_jobs": "jobs_fresh(self)", "batch_marked_delivered": "delivered(popped())"},
+                    havoc=["ghost:NY"]),
+        },
+    ))
 
     # loop-head hook: remember where the iteration starts (for the promptness obligation) and let other threads append
     orig_havoc = None
